@@ -1,6 +1,7 @@
 package props
 
 import (
+	"bytes"
 	"fmt"
 	"io"
 	"math"
@@ -33,6 +34,7 @@ type c08Case struct {
 	S      int    `json:"send_limit"` // 0 = default
 	Target int    `json:"encoded_size"`
 	Lead   bool   `json:"small_message_first"`
+	Split  bool   `json:"field_boundary_at_limit"` // the first L encoded bytes are complete fields, more fields follow
 	Prefix uint64 `json:"length_prefix,omitempty"`
 }
 
@@ -161,6 +163,34 @@ func (e *c08Env) execRecv(tc *c08Case) (oracle, note string) {
 	var bigEnc []byte
 	if tc.Proto == "http-body" {
 		bigEnc = []byte(strings.Repeat("z", tc.Target))
+	} else if tc.Split {
+		// field s encodes to exactly L bytes, then field b follows: a reader that stops after L
+		// bytes still sees a well-formed (truncated) message
+		if codec != "proto" {
+			return "", "n/a"
+		}
+		_, enc, ok := sized(e.t.req, codec, L)
+		if !ok {
+			return "", "unreachable-size"
+		}
+		extra := tc.Target - L
+		if extra < 3 {
+			return "", "n/a"
+		}
+		var tail []byte // field b, exactly `extra` bytes on the wire
+		for n := extra - 2; n >= extra-4 && n >= 0; n-- {
+			if t := append(append([]byte{0x12}, refVarint(uint64(n))...), bytes.Repeat([]byte("y"), n)...); len(t) == extra {
+				tail = t
+			}
+		}
+		if tail == nil {
+			return "", "unreachable-size"
+		}
+		bigEnc = append(append([]byte{}, enc...), tail...)
+		big = dynamicpb.NewMessage(e.t.req)
+		if err := proto.Unmarshal(bigEnc, big); err != nil {
+			return "harness", err.Error()
+		}
 	} else {
 		var ok bool
 		big, bigEnc, ok = sized(e.t.req, codec, tc.Target)
@@ -295,6 +325,9 @@ func (e *c08Env) execRecv(tc *c08Case) (oracle, note string) {
 		for _, r := range lg.Recv {
 			if tc.Proto != "http-body" && len(r.ProtoReflect().Get(e.t.req.Fields().ByName("s")).String()) > L {
 				return "over-limit-delivered", "an over-limit payload reached the handler (altered)"
+			}
+			if tc.Split && len(r.ProtoReflect().Get(e.t.req.Fields().ByName("s")).String()) > 8 {
+				return "over-limit-delivered-truncated", fmt.Sprintf("a %d-byte message reached the handler cut down to its first fields under limit %d: {%v}", tc.Target, L, truncS(fmt.Sprint(r), 80))
 			}
 		}
 		// the client must see an error
@@ -456,6 +489,9 @@ func c08Cases(thorough bool) []c08Case {
 					}
 					for _, lead := range []bool{false, true} {
 						out = append(out, c08Case{Kind: "recv", Proto: p, Gzip: gz, L: L, Target: t, Lead: lead})
+						if t > L+2 && t <= 2*L+1 {
+							out = append(out, c08Case{Kind: "recv", Proto: p, Gzip: gz, L: L, Target: t, Lead: lead, Split: true})
+						}
 					}
 				}
 			}
@@ -503,7 +539,7 @@ func c08Cases(thorough bool) []c08Case {
 
 func runC08(c *Ctx) {
 	r := c.Run
-	r.Rule("receive: protocol{HTTP unary json/proto/HttpBody, HTTP stream json/proto, gRPC (+json), gRPC-web, gRPC-web-text, WebSocket} × gzip{off,on (Content-Encoding / per-message grpc-encoding, highly compressible payload)} × limit{32,100,1000,default 4MiB} × encoded size{L-3..L+3,2L,2L+1,64KiB} × {alone, after a small message}; send: protocol × (send limit, receive limit) pairs with S<L, S>L and defaults × reply size around S; bogus length prefixes {L+1,2^31-1,2^31,2^32-1,2^32,2^63-1,2^63,2^64-1} with a 3-byte body; distinct = (kind, protocol, gzip, limit, size class, outcome)")
+	r.Rule("receive: protocol{HTTP unary json/proto/HttpBody, HTTP stream json/proto, gRPC (+json), gRPC-web, gRPC-web-text, WebSocket} × gzip{off,on (Content-Encoding / per-message grpc-encoding, highly compressible payload)} × limit{32,100,1000,default 4MiB} × encoded size{L-3..L+3,2L,2L+1,64KiB} × {alone, after a small message} × {one big field, a field boundary exactly at the limit with more fields following}; send: protocol × (send limit, receive limit) pairs with S<L, S>L and defaults × reply size around S; bogus length prefixes {L+1,2^31-1,2^31,2^32-1,2^32,2^63-1,2^63,2^64-1} with a 3-byte body; distinct = (kind, protocol, gzip, limit, size class, outcome)")
 	r.Assume("sizes are measured in the codec used on the wire, after decompression; the message carries one string field so the size is an exact function of its length", "what happens to replies above the send limit is not part of the property")
 	cases := c08Cases(c.Thorough())
 	envs := make([]*c08Env, explore.Workers)
@@ -519,11 +555,11 @@ func runC08(c *Ctx) {
 		r.Eval(1)
 		if oracle != "" {
 			r.Outcome("FAIL:" + oracle)
-			r.Violation(report.Violation{Oracle: oracle, Key: fmt.Sprintf("%s kind=%s proto=%s gzip=%v L=%d S=%d size=%d lead=%v prefix=%d", oracle, tc.Kind, tc.Proto, tc.Gzip, tc.L, tc.S, tc.Target, tc.Lead, tc.Prefix), Case: *tc, Note: note})
+			r.Violation(report.Violation{Oracle: oracle, Key: fmt.Sprintf("%s kind=%s proto=%s gzip=%v L=%d S=%d size=%d lead=%v split=%v prefix=%d", oracle, tc.Kind, tc.Proto, tc.Gzip, tc.L, tc.S, tc.Target, tc.Lead, tc.Split, tc.Prefix), Case: *tc, Note: note})
 			return
 		}
 		r.Outcome(tc.Kind + ":" + note)
-		r.Distinct(fmt.Sprintf("%s|%s|%v|%d|%d|%d|%s", tc.Kind, tc.Proto, tc.Gzip, tc.L, tc.S, tc.Target, note))
+		r.Distinct(fmt.Sprintf("%s|%s|%v|%d|%d|%d|%v|%s", tc.Kind, tc.Proto, tc.Gzip, tc.L, tc.S, tc.Target, tc.Split, note))
 		if r.WantSample() && i%211 == 3 {
 			r.Sample(*tc)
 		}
